@@ -39,9 +39,10 @@ RULE = (
     "program description."
 )
 ASSUMPTIONS = [
-    "family A: the Gaussian simulator is taken as exact; tolerance 4*(2e+e^2)+1e-9 with "
-    "e = sum over Euler-expanded prefixes of sqrt(leak above cutoff), leak measured on the "
-    "Gaussian simulator",
+    "family A: the Gaussian simulator is taken as exact; tolerance 2e+e^2+1e-7 with "
+    "e = sum over Euler-expanded elementary factors of sqrt(leak above cutoff), leak measured "
+    "on the Gaussian simulator; the cutoff is raised (up to 32/22/14/10 for d=1/2/3/4) until "
+    "e <= 1e-6 where feasible",
     "family E/K: tolerance 1e-9 absolute on probabilities, amplitudes and density-matrix entries",
     "d<=4, cutoff<=10, float64 configs only",
 ]
@@ -236,7 +237,7 @@ def scale_desc(desc, factor):
     return out
 
 
-def choose_cutoff(desc, hbar, target=2e-3):
+def choose_cutoff(desc, hbar, target=1e-6):
     try:
         return _choose_cutoff(desc, hbar, target)
     except BoundUnavailable:
@@ -244,14 +245,22 @@ def choose_cutoff(desc, hbar, target=2e-3):
 
 
 def _choose_cutoff(desc, hbar, target):
+    """Smallest cutoff (on a coarse ladder) whose rigorous leak bound is below `target`;
+    if none is, the largest feasible cutoff provided its bound is still below 2e-3.  A
+    genuine discrepancy does not shrink with the cutoff, the truncation error does, so the
+    bound is made small by going high rather than by an empirical safety factor.
+    Otherwise the active parameters are halved (construction, not rejection)."""
+    ladder = {1: [6, 10, 16, 24, 32], 2: [6, 10, 14, 18, 22], 3: [5, 8, 11, 14],
+              4: [4, 6, 8, 10]}[desc["d"]]
     for _ in range(6):
-        for c in (4, 5, 6, 7, 8, 9, 10):
-            if desc["d"] == 4 and c > 8:
-                break
+        eps = None
+        for c in ladder:
             leaks = gaussian_leaks(desc, c, hbar)
             eps = sum(math.sqrt(x) for x in leaks)
             if eps <= target:
                 return desc, c, eps
+        if eps is not None and eps <= 2e-3:
+            return desc, ladder[-1], eps
         desc = scale_desc(desc, 0.5)
     return desc, None, None
 
@@ -271,14 +280,14 @@ def prop_active(case, ctx):
             ctx.count("A_no_cutoff_found")
             return
         desc = {**desc, "cutoff": c}
-    tol = 4 * (2 * eps + eps * eps) + TOL
+    tol = (2 * eps + eps * eps) + 1e-7  # rigorous: factors are Euler-expanded
     g = run_or_violation(desc, "G", c, hbar, "A")
     pf = run_or_violation(desc, "PF", c, hbar, "A")
     pg = np.asarray(g.fock_probabilities, dtype=float)
     ppf = np.asarray(pf.fock_probabilities, dtype=float)
     compared = 2
     pfk = None
-    if desc["d"] <= 3 or c <= 6:
+    if math.comb(desc["d"] + c - 1, desc["d"]) <= 230:
         f = run_or_violation(desc, "F", c, hbar, "A")
         pfk = np.asarray(f.fock_probabilities, dtype=float)
         compared = 3
@@ -298,7 +307,7 @@ def prop_active(case, ctx):
         if maxdiff(dm_f, np.outer(sv, sv.conj())) > TOL:
             raise Violation("C01:A:density_matrix:F-vs-PF", "differs")
     # Gaussian density matrix vs PF outer product (same bound on entries)
-    if desc["d"] <= 2 and c <= 7:
+    if math.comb(desc["d"] + c - 1, desc["d"]) <= 60:
         dm_g = np.asarray(g.density_matrix)
         sv = np.asarray(pf.state_vector)
         dm_pf = np.outer(sv, sv.conj())
@@ -418,7 +427,7 @@ def prop_att_gauss(case, ctx):
         if c is None:
             ctx.count("A_no_cutoff_found")
             return
-    tol = 4 * (2 * eps + eps * eps) + TOL
+    tol = (2 * eps + eps * eps) + 1e-7  # rigorous: factors are Euler-expanded
     full = {**desc, "gates": desc["gates"] + [case["att"]], "cutoff": c, "att": case["att"]}
     g = run_or_violation(full, "G", c, hbar, "AT")
     f = run_or_violation(full, "F", c, hbar, "AT")
